@@ -185,7 +185,6 @@ UF_ATTRS = ("#[cfg_attr(kani, kani::stub(crate::op::Op::eval_value_unary, crate:
 
 SHAPE = "shape: exactly %d element(s), repeat counts 0..=%d, 1 <= total width <= 64 (element values, widths and signedness symbolic)"
 KINDS = {"concat_layout_n%d" % n: ("bounded", SHAPE % (n, 2 if n <= 2 else 1)) for n in range(1, 4)}
-KINDS["ct_rt_ternary_agree_cond65"] = ("bounded", "condition is a 65-bit Value::BigUint (payload and mask_xz symbolic, real num-bigint); branches <= 64 bits, both of the context width")
 FN_OF = [("leaf", "Expression::eval [Value arm]"), ("unary", "Expression::eval [Unary arm]"), ("binary", "Expression::eval [Binary arm]"),
          ("ternary", "Expression::eval [Ternary arm]"), ("concat", "Expression::eval [Concatenation arm]"),
          ("ct_", "Expression::eval [Ternary arm] vs analyzer Expression::eval_value [Ternary arm]"), ("canary_ct", "analyzer Expression::eval_value [Ternary arm]")]
@@ -199,13 +198,11 @@ def build(ctx, res):
     ctext = ct_module(ctx, items)
     raw = ctx.unit_file("interp", "harness.rs")
     h = raw.replace("#[vp_proof_uf_u2]", VL.expand_harness_attrs("#[vp_proof]\n" + UF_ATTRS, unwind=2))
-    # no E9 stubs: the harness runs the real num-bigint code (operator functions sliced away by the EU stubs; they are not called)
-    h = h.replace("#[vp_proof_big]", "#[cfg_attr(kani, kani::proof)]\n#[cfg_attr(kani, kani::unwind(8))]\n" + UF_ATTRS)
     h = h.replace("#[vp_proof_uf]", "#[vp_proof]\n" + UF_ATTRS)
     h = VL.expand_harness_attrs(h, unwind=8)
     lib = VL.PRELUDE + vtext + otext + itext + ctext + VL.BIG_STUBS + opeval_spec(ctx) + any_op_text(op_variants(oitems[0])) + h
     hs = []
-    for n in re.findall(r"#\[vp_proof(?:_uf|_uf_u2|_big)?\]\s*pub fn (\w+)", raw):
+    for n in re.findall(r"#\[vp_proof(?:_uf|_uf_u2)?\]\s*pub fn (\w+)", raw):
         kind, bound = ("canary", None) if n.startswith("canary_") else KINDS.get(n, ("proof", None))
         fn = [f for p, f in FN_OF if n.startswith(p) or (n.startswith("canary_") and n[7:].startswith(p))]
         hs.append(Harness("harness::" + n, kind=kind, fn=fn[-1] if fn else "Expression::eval", bound=bound))
@@ -224,8 +221,7 @@ def build(ctx, res):
                          "{e_1 x repeat_1, ..., e_n x repeat_n} with e_1 most significant; result.signed == node.signed; wf(result)",
         "compile time vs run time (Ternary)": "with context width >= both branch widths, node.width == context width and node.signed == (both branch values signed): for EVERY well-formed "
                                               "<=64-bit condition value (known, known 1 together with x/z, x/z only) interpreter result == analyzer `eval_value` Ternary arm result "
-                                              "(all fields); for a 65-bit Value::BigUint condition (bounded stand-in ct_rt_ternary_agree_cond65) both select the true branch iff "
-                                              "some bit is a known 1",
+                                              "(all fields). Conditions wider than 64 bits are not covered (CBMC does not finish on the num-bigint compare)",
     })
     res.trusted += [
         "interp: harness stand-in (compile-time side only): a child of the analyzer's Ternary node is `ct::Expression { v: Option<Value> }` whose eval_value returns the stored, "
